@@ -2,6 +2,7 @@ package main
 
 import (
 	"fmt"
+	"runtime"
 	"go/types"
 	"sort"
 	"strings"
@@ -59,11 +60,14 @@ func (w *World) findUnit(pkgName, key string) (*Unit, error) {
 }
 
 // verifyUnit builds the VC script for a unit.
-func (w *World) verifyUnit(u *Unit) *Exec {
+func (w *World) verifyUnit(u *Unit) (ret *Exec) {
 	e := newExec(w, u.Name)
 	defer func() {
 		if r := recover(); r != nil {
-			e.errorf("internal error while generating VCs for %s: %v", u.Name, r)
+			buf := make([]byte, 4096)
+			n := runtime.Stack(buf, false)
+			e.errorf("internal error while generating VCs for %s: %v\n%s", u.Name, r, buf[:n])
+			ret = e
 		}
 	}()
 	fn := u.Fn
